@@ -100,10 +100,11 @@ fn main() {
             if let Op::S { k, .. } = op {
                 applied.push(*k);
             }
-            let racy = *op == Op::R && ex.racy_state();
             if matches!(op, Op::X | Op::D) { restarts += 1; }
             if matches!(op, Op::F | Op::D) { skew_ops += 1; }
             if let Some(mut line) = ex.exec(op) {
+                let racy = *op == Op::R && ex.last_read_racy;
+                if racy { line = ex.last_real_read.clone(); }
                 if racy {
                     st.tally("racy_reads");
                     line = "racy".to_string();
